@@ -220,7 +220,8 @@ Base(fam, ws, box, dt) ==
 
 ParamSets(fam) ==
   CASE fam = "linear" ->
-         {Base(fam, ws, box, "f64") : ws \in UNION {WeightVecs(n) : n \in 1..MaxBins}, box \in Boxes}
+         \* (plus a peaked one: a bin that carries half a millionth of the mass, as a trained conditioner produces)
+         {Base(fam, ws, box, "f64") : ws \in UNION {WeightVecs(n) : n \in 1..MaxBins} \cup {<<2000000, 1, 3>>}, box \in Boxes}
     [] fam = "quadratic" ->
          UNION {UNION {{[Base(fam, ws, box, "f64") EXCEPT !.tails = box.tails] @@ [hq |-> hq, mbw |-> mb[1], mbh |-> mb[2]] :
                           hq \in QuadVecs(IF box.tails THEN Len(ws) - 1 ELSE Len(ws) + 1), mb \in MinBins}
